@@ -1,5 +1,6 @@
 import Utv.Model.C18
 import Utv.Lemmas.C18
+import Utv.Lemmas.C18Cost
 /-!
 C18 — the depth limit is exact and parse cost stays bounded.
 
@@ -599,5 +600,304 @@ example :
 
 /-- the hypotheses of `C18_cost_exponential` are satisfiable -/
 example : (∀ m, W0.leafOk m 0 = true) ∧ (∀ m, W0.leafOk m 1 = false) := ⟨fun _ => rfl, fun _ => rfl⟩
+
+end Utv.C18
+
+namespace Utv.C18
+
+/-! ### cost: polynomial (linear in the input size) outside the known defect -/
+
+/-- cost bound for types without any data class: weight × size -/
+def CostFree (rec : Parser) : Prop :=
+  ∀ c T v, noData T = true → (rec c T v).2 ≤ tyWt c.mode T * vsize v
+
+/-- cost bound with data classes (none of them under a union): `B` × size -/
+def CostOk (B : Nat) (rec : Parser) : Prop :=
+  ∀ c T v, noDataUnderUnion T = true → tyWt c.mode T ≤ B → (rec c T v).2 ≤ B * vsize v
+
+section
+variable {W : World} {Q : Quirks} {E : Env} {rec : Parser}
+
+theorem items_cost (B : Nat) (c : Ctx) (t : Ty) (vs : List Val)
+    (h : ∀ c' v', c'.mode = c.mode → (rec c' t v').2 ≤ B * vsize v') :
+    (parseItems Q rec c t vs).2 ≤ B * vsizeL vs := by
+  rw [← sum_indexed B vs 0]
+  apply seqM_cost_le
+  intro iv _
+  apply inCtx_cost_le
+  intro c' hc'
+  exact h c' iv.2 (enter_mode Q c _ _ c' hc')
+
+theorem entries_cost (B : Nat) (c : Ctx) (kt : KeyTy) (t : Ty) (kvs : List (Key × Val))
+    (h : ∀ c' v', c'.mode = c.mode → (rec c' t v').2 ≤ B * vsize v') :
+    (parseEntries Q rec c kt t kvs).2 ≤ B * vsizeK kvs := by
+  rw [← sum_entries B kvs]
+  apply seqM_cost_le
+  intro kv _
+  split
+  · simp
+  · rw [mapOut_snd]
+    apply inCtx_cost_le
+    intro c' hc'
+    exact h c' kv.2 (enter_mode Q c _ _ c' hc')
+
+theorem stage_cost (c : Ctx) (ts : List Ty) (v : Val) (m : Mode) (f : Flags)
+    (h : ∀ t ∈ ts, ∀ c', c'.mode = m → (rec c' t v).2 ≤ tyWt m t * vsize v) :
+    (unionStage Q rec c ts v m f).2 ≤ tyWtL m ts * vsize v := by
+  rw [← sum_tyWtL]
+  apply tryAll_cost_le
+  intro t ht
+  apply inCtx_cost_le
+  intro c' hc'
+  exact h t ht c' (enter_mode Q c _ _ c' hc')
+
+theorem union_cost (c : Ctx) (ts : List Ty) (v : Val)
+    (h : ∀ t ∈ ts, ∀ c', (rec c' t v).2 ≤ tyWt c'.mode t * vsize v) :
+    (parseUnion Q rec c ts v).2 ≤ tyWt c.mode (.union ts) * vsize v := by
+  have hs : ∀ m f, (unionStage Q rec c ts v m f).2 ≤ tyWtL m ts * vsize v := fun m f =>
+    stage_cost c ts v m f (fun t ht c' hc' => by have := h t ht c'; rwa [hc'] at this)
+  simp only [parseUnion]
+  split
+  · simp
+  · have h4 : ∀ f, (unionStage Q rec c ts v c.mode f).2 ≤ tyWtL c.mode ts * vsize v := fun f => hs _ f
+    have h3 : ∀ f, (orElse (if (!c.mode.noLoss && !c.mode.noCast) = true then
+          unionStage Q rec c ts v ⟨true, c.mode.noCast⟩ f else (Out.err f, 0))
+        fun f => unionStage Q rec c ts v c.mode f).2 ≤
+        (if stage3 c.mode then tyWtL ⟨true, c.mode.noCast⟩ ts else 0) * vsize v + tyWtL c.mode ts * vsize v := by
+      intro f
+      refine Nat.le_trans (orElse_cost_le _ _ _ h4) ?_
+      apply Nat.add_le_add_right
+      simp only [stage3]
+      by_cases hc : (!c.mode.noLoss && !c.mode.noCast) = true
+      · simp only [hc, if_true]; exact hs _ f
+      · simp [hc]
+    refine Nat.le_trans (orElse_cost_le _ _ _ h3) ?_
+    simp only [tyWt, Nat.add_mul]
+    have : (if (!c.mode.noLoss || !c.mode.noCast) = true then unionStage Q rec c ts v Mode.strict {}
+        else (Out.err {}, 0)).2 ≤ (if stage2 c.mode then tyWtL Mode.strict ts else 0) * vsize v := by
+      simp only [stage2]
+      by_cases hc : (!c.mode.noLoss || !c.mode.noCast) = true
+      · simp only [hc, if_true]; exact hs _ _
+      · simp [hc]
+    omega
+
+theorem leaf_cost_le_one (c : Ctx) (v : Val) : (step W Q E rec c .leaf v).2 ≤ 1 := by
+  simp only [step]
+  cases v with
+  | tok n => by_cases hl : W.leafOk c.mode n = true <;> simp [hl]
+  | none => simp
+  | list vs => simp
+  | dict kvs => simp
+
+theorem nodup_map_str (l : List String) (h : l.Nodup) : (l.map Key.str).Nodup := by
+  induction l with
+  | nil => simp
+  | cons x xs ih =>
+    rw [List.nodup_cons] at h
+    simp only [List.map_cons, List.nodup_cons]
+    refine ⟨?_, ih h.2⟩
+    intro hm
+    obtain ⟨y, hy, he⟩ := List.mem_map.1 hm
+    cases he
+    exact h.1 hy
+
+/-- one layer keeps the bound for data-free types -/
+theorem step_costFree (h : CostFree rec) : CostFree (step W Q E rec) := by
+  intro c T v hT
+  cases T with
+  | leaf =>
+    have := vsize_pos v
+    have := leaf_cost_le_one (W := W) (Q := Q) (E := E) (rec := rec) c v
+    simp only [tyWt]
+    omega
+  | none => simp only [step]; cases v <;> simp
+  | data k => simp [noData] at hT
+  | list t =>
+    simp only [noData] at hT
+    simp only [step, tyWt]
+    cases hw : wrapSeq c.mode v with
+    | none => simp
+    | some vs =>
+      simp only [mapOut_snd]
+      refine Nat.le_trans (items_cost (tyWt c.mode t) c t vs (fun c' v' hc' => by
+        have := h c' t v' hT; rwa [hc'] at this)) ?_
+      exact Nat.mul_le_mul_left _ (wrapSeq_size _ _ _ hw)
+  | tuple t =>
+    simp only [noData] at hT
+    simp only [step, tyWt]
+    cases hw : wrapSeq c.mode v with
+    | none => simp
+    | some vs =>
+      simp only [mapOut_snd]
+      refine Nat.le_trans (items_cost (tyWt c.mode t) c t vs (fun c' v' hc' => by
+        have := h c' t v' hT; rwa [hc'] at this)) ?_
+      exact Nat.mul_le_mul_left _ (wrapSeq_size _ _ _ hw)
+  | dict kt t =>
+    simp only [noData] at hT
+    simp only [step, tyWt]
+    cases v with
+    | dict kvs =>
+      simp only [mapOut_snd]
+      refine Nat.le_trans (entries_cost (tyWt c.mode t) c kt t kvs (fun c' v' hc' => by
+        have := h c' t v' hT; rwa [hc'] at this)) ?_
+      exact Nat.mul_le_mul_left _ (by simp [vsize])
+    | tok n => simp
+    | none => simp
+    | list vs => simp
+  | union ts =>
+    simp only [noData] at hT
+    simp only [step]
+    exact union_cost c ts v (fun t ht c' => h c' t v (noDataL_mem ts hT t ht))
+
+theorem envOk_field (B : Nat) (hE : envOk B E = true) (k : Nat) (cd : ClassDecl) (hk : E[k]? = some cd) :
+    (∀ ft ∈ cd.fields, noDataUnderUnion ft.2 = true ∧ tyWt cd.mode ft.2 ≤ B) ∧ (cd.fields.map Prod.fst).Nodup := by
+  have hmem : cd ∈ E := List.mem_of_getElem? hk
+  simp only [envOk, List.all_eq_true, Bool.and_eq_true, decide_eq_true_eq] at hE
+  exact ⟨fun ft hft => (hE cd hmem).1 ft hft, (hE cd hmem).2⟩
+
+theorem field_cost (B : Nat) (h2 : CostOk B rec) (c : Ctx) (t : Ty) (v : Val)
+    (ht : noDataUnderUnion t = true) (hw : tyWt c.mode t ≤ B) :
+    (parseField Q rec c t v).2 ≤ B * vsize v := by
+  simp only [parseField]
+  apply inCtx_cost_le
+  intro c' hc'
+  have hm := enter_mode Q c _ _ c' hc'
+  exact h2 c' t v ht (by rw [hm]; exact hw)
+
+/-- one layer keeps the bound for declarations outside the known defect -/
+theorem step_costOk (B : Nat) (hE : envOk B E = true) (h1 : CostFree rec) (h2 : CostOk B rec) :
+    CostOk B (step W Q E rec) := by
+  intro c T v hT hB
+  cases T with
+  | leaf =>
+    have := vsize_pos v
+    simp only [tyWt] at hB
+    have hle : 1 ≤ B * vsize v := Nat.le_trans (by omega) (Nat.mul_le_mul hB this)
+    have := leaf_cost_le_one (W := W) (Q := Q) (E := E) (rec := rec) c v
+    omega
+  | none => simp only [step]; cases v <;> simp
+  | data k =>
+    simp only [step]
+    cases hk : E[k]? with
+    | none => simp
+    | some cd =>
+      obtain ⟨hf, hnd⟩ := envOk_field B hE k cd hk
+      simp only
+      split
+      · simp
+      · cases v with
+        | tok n => simp
+        | none => simp
+        | list vs => simp
+        | dict kvs =>
+          simp only [mapOut_snd]
+          have hgoal : B * vsizeK kvs ≤ B * vsize (Val.dict kvs) := Nat.mul_le_mul_left _ (by simp [vsize])
+          refine Nat.le_trans ?_ hgoal
+          split
+          · -- data-first
+            simp only [parseDF, mapOut_snd]
+            refine Nat.le_trans (seqM_cost_le _ (fun it => B * vsize it.2.2) _ ?_) (knownItems_sum_le B _ _)
+            intro it hit
+            rw [mapOut_snd]
+            have := hf (it.1, it.2.1) (knownItems_field _ _ it hit)
+            exact field_cost B h2 _ _ _ this.1 this.2
+          · -- field-first
+            simp only [parseFF]
+            have hsum : (cd.fields.map fun ft => B * sizeAt kvs (Key.str ft.1)).sum ≤ B * vsizeK kvs := by
+              have h0 := sum_sizeAt_le (cd.fields.map fun ft => Key.str ft.1)
+                (by
+                  have : (cd.fields.map fun ft => Key.str ft.1) = (cd.fields.map Prod.fst).map Key.str := by
+                    simp [List.map_map, Function.comp_def]
+                  rw [this]
+                  exact nodup_map_str _ hnd) kvs
+              have : (cd.fields.map fun ft => B * sizeAt kvs (Key.str ft.1)).sum =
+                  B * ((cd.fields.map fun ft => Key.str ft.1).map (sizeAt kvs)).sum := by
+                clear h0 hf hnd hk
+                induction cd.fields with
+                | nil => simp
+                | cons x xs ih => simp [ih, Nat.mul_add]
+              rw [this]
+              exact Nat.mul_le_mul_left _ h0
+            refine Nat.le_trans (seqM_cost_le _ (fun ft => B * sizeAt kvs (Key.str ft.1)) _ ?_) hsum
+            intro ft hft
+            simp only [sizeAt]
+            cases lookupKey (Key.str ft.1) kvs with
+            | none => simp
+            | some fv =>
+              simp only [mapOut_snd]
+              have := hf ft hft
+              exact field_cost B h2 _ _ _ this.1 this.2
+  | list t =>
+    simp only [noDataUnderUnion] at hT
+    simp only [tyWt] at hB
+    simp only [step]
+    cases hw : wrapSeq c.mode v with
+    | none => simp
+    | some vs =>
+      simp only [mapOut_snd]
+      refine Nat.le_trans (items_cost B c t vs (fun c' v' hc' => h2 c' t v' hT (by rw [hc']; exact hB))) ?_
+      exact Nat.mul_le_mul_left _ (wrapSeq_size _ _ _ hw)
+  | tuple t =>
+    simp only [noDataUnderUnion] at hT
+    simp only [tyWt] at hB
+    simp only [step]
+    cases hw : wrapSeq c.mode v with
+    | none => simp
+    | some vs =>
+      simp only [mapOut_snd]
+      refine Nat.le_trans (items_cost B c t vs (fun c' v' hc' => h2 c' t v' hT (by rw [hc']; exact hB))) ?_
+      exact Nat.mul_le_mul_left _ (wrapSeq_size _ _ _ hw)
+  | dict kt t =>
+    simp only [noDataUnderUnion] at hT
+    simp only [tyWt] at hB
+    simp only [step]
+    cases v with
+    | dict kvs =>
+      simp only [mapOut_snd]
+      refine Nat.le_trans (entries_cost B c kt t kvs (fun c' v' hc' => h2 c' t v' hT (by rw [hc']; exact hB))) ?_
+      exact Nat.mul_le_mul_left _ (by simp [vsize])
+    | tok n => simp
+    | none => simp
+    | list vs => simp
+  | union ts =>
+    simp only [noDataUnderUnion] at hT
+    have := step_costFree (W := W) (Q := Q) (E := E) h1 c (.union ts) v (by simpa [noData] using hT)
+    exact Nat.le_trans this (Nat.mul_le_mul_right _ hB)
+
+end
+
+theorem parse_costFree (W : World) (Q : Quirks) (E : Env) (fuel : Nat) : CostFree (parse W Q E fuel) := by
+  induction fuel with
+  | zero => intro c T v _; simp [parse]
+  | succ n ih => exact step_costFree ih
+
+theorem parse_costOk (W : World) (Q : Quirks) (E : Env) (B : Nat) (hE : envOk B E = true) (fuel : Nat) :
+    CostOk B (parse W Q E fuel) := by
+  induction fuel with
+  | zero => intro c T v _ _; simp [parse]
+  | succ n ih => exact step_costOk B hE (parse_costFree W Q E n) ih
+
+/-- **Cost is bounded** (partial: outside the known defect `union-retries-exponential`).  If no union of the
+declarations has a data class among its alternatives (decidable, `envOk`), the number of leaf conversions is at
+most `B · size(input)` where `B` bounds the weight of every field type — linear in the input, for valid and
+invalid inputs alike, with or without a depth limit, for every leaf behaviour, entry point and fuel. -/
+theorem C18_cost_poly_partial (W : World) (Q : Quirks) (E : Env) (B : Nat) (hE : envOk B E = true)
+    (fuel : Nat) (via : Bool) (k : Nat) (v : Val) :
+    (parseTop W Q E fuel via k v).2 ≤ B * vsize v :=
+  parse_costOk W Q E B hE fuel _ (.data k) v rfl (by simp [tyWt])
+
+/-- the same for an arbitrary declared type in an arbitrary context -/
+theorem C18_cost_poly_partial_ty (W : World) (Q : Quirks) (E : Env) (B : Nat) (hE : envOk B E = true)
+    (fuel : Nat) (c : Ctx) (T : Ty) (v : Val) (hT : noDataUnderUnion T = true) (hB : tyWt c.mode T ≤ B) :
+    (parse W Q E fuel c T v).2 ≤ B * vsize v :=
+  parse_costOk W Q E B hE fuel c T v hT hB
+
+/-- non-vacuity: a recursive declaration with lists, mappings and unions of leaves satisfies `envOk` -/
+example : envOk 3
+    [{ fields := [("v", .union [.leaf, .none]), ("kids", .list (.data 0)), ("m", .dict .str (.data 0)),
+                  ("direct", .data 0)] }] = true := by decide
+
+/-- the known-defect region is exactly what `envOk` excludes: `Optional['Node']` is a union with a data class -/
+example : envOk 1000 nodeEnv = false := by decide
 
 end Utv.C18
